@@ -1,5 +1,248 @@
-use crate::Ctx;
+//! C01 - vital chunks are delivered exactly once, in order, uncorrupted.
+//!
+//! Generator: histories of application calls and network faults over the two-endpoint simulation
+//! (netsim). Oracle: reference model = list of submitted vital chunks per direction; every delivered
+//! vital chunk must be the next element of that list; non-vital chunks must have been sent; Ready at
+//! most once and only after the acceptor answered.
 
-pub fn run(_ctx: &Ctx) {
-    // not built yet
+use crate::netsim::*;
+use crate::{Ctx, Outcome, PResult};
+use proptest::prelude::*;
+use serde_json::json;
+
+pub const ORACLES: [&str; 3] = ["vital_prefix", "nonvital_member", "ready"];
+
+pub fn max_len_for(v: Variant, ctx: &Ctx) -> usize {
+    // the largest chunk the connection layer carries; lengths above are C04's business. Open known
+    // findings (0.6 chunks >= 1024 bytes, 0.7 vital chunks that cannot be resent) are excluded by
+    // construction.
+    let _ = ctx;
+    match v {
+        Variant::V7 => 1387,
+        _ => 1023,
+    }
+}
+
+pub fn run_history_generic<P: Proto>(
+    ops: &[Op],
+    strip: bool,
+    max_len: usize,
+    oracles: &[&str],
+    mut after_step: impl FnMut(&mut Sim<P>, &Op) -> StepResult,
+) -> Result<(Stats, Option<String>), String> {
+    let mut sim: Sim<P> = Sim::new(0x5EED, strip);
+    sim.max_len = max_len;
+    let mut aborted = None;
+    for (i, op) in ops.iter().enumerate() {
+        let r = sim.step(op).and_then(|()| after_step(&mut sim, op));
+        if let Err(f) = r {
+            if oracles.contains(&f.oracle) {
+                return Err(format!("op #{} {:?}: [{}] {}", i, op, f.oracle, f.msg));
+            }
+            aborted = Some(format!("[{}] {}", f.oracle, f.msg));
+            break;
+        }
+    }
+    Ok((sim.stats.clone(), aborted))
+}
+
+pub fn run_variant(
+    v: Variant,
+    ops: &[Op],
+    max_len: usize,
+    oracles: &[&str],
+) -> Result<(Stats, Option<String>), String> {
+    match v {
+        Variant::V6Token => run_history_generic::<P6>(ops, false, max_len, oracles, |_, _| Ok(())),
+        Variant::V6NoToken => run_history_generic::<P6>(ops, true, max_len, oracles, |_, _| Ok(())),
+        Variant::V7 => run_history_generic::<P7>(ops, false, max_len, oracles, |_, _| Ok(())),
+    }
+}
+
+pub fn outcome_from(stats: &Stats, aborted: &Option<String>) -> Outcome {
+    Outcome::nt(stats.vital_delivered > 0 && stats.faults_on_vital > 0)
+        .class_if(stats.resend_datagrams > 0, "resend_fired")
+        .class_if(stats.wrapped, "sequence_wrapped")
+        .class_if(stats.max_in_flight >= 2, "two_or_more_in_flight")
+        .class_if(stats.handshake_lost > 0, "handshake_datagram_faulted")
+        .class_if(stats.ready > 0, "ready_seen")
+        .class_if(stats.vital_delivered >= 50, "fifty_plus_vital_delivered")
+        .class_if(stats.nonvital_delivered > 0, "nonvital_delivered")
+        .class_if(stats.drops > 0, "drop")
+        .class_if(stats.dups > 0, "dup")
+        .class_if(stats.reorders > 0, "reorder")
+        .class_if(stats.max_unacked >= 100, "hundred_plus_unacked")
+        .class_if(stats.sessions >= 2, "second_session")
+        .class_if(aborted.is_some(), "aborted_by_other_oracle")
+}
+
+fn check(v: Variant, ops: &Vec<Op>, max_len: usize) -> PResult {
+    let (stats, aborted) = run_variant(v, ops, max_len, &ORACLES)?;
+    Ok(outcome_from(&stats, &aborted))
+}
+
+// ---------------------------------------------------------------------------
+// Bounded exhaustive schedule enumeration (uses the clone hook)
+
+fn explore<P: Proto>(
+    strip: bool,
+    chunks: usize,
+    split: usize,
+    max_depth: u32,
+    states: &mut u64,
+    transitions: &mut u64,
+) -> Result<(), String>
+where
+    P::Conn: Sized,
+{
+    // scenario: handshake on a good network, client submits `chunks` vital chunks flushed every `split`
+    let mut sim: Sim<P> = Sim::new(7, strip);
+    for op in handshake_prelude() {
+        sim.step(&op).map_err(|f| f.msg)?;
+    }
+    for i in 0..chunks {
+        sim.step(&Op::Send { side: 0, vital: true, len: 10, fill: i as u8 }).map_err(|f| f.msg)?;
+        if (i + 1) % split == 0 {
+            sim.step(&Op::Flush { side: 0 }).map_err(|f| f.msg)?;
+        }
+    }
+    sim.step(&Op::Flush { side: 0 }).map_err(|f| f.msg)?;
+    // DFS over {deliver k, drop k, dup k} for every in-flight datagram and {tick at deadline}
+    let mut seen: std::collections::HashSet<u64> = std::collections::HashSet::new();
+    dfs(&mut sim, 0, max_depth, &mut seen, states, transitions)
+}
+
+fn sim_key<P: Proto>(sim: &Sim<P>) -> u64 {
+    use std::hash::{Hash, Hasher};
+    let mut h = std::collections::hash_map::DefaultHasher::new();
+    P::fingerprint(&sim.ends[0]).hash(&mut h);
+    P::fingerprint(&sim.ends[1]).hash(&mut h);
+    for d in 0..2 {
+        let mut v: Vec<&Vec<u8>> = sim.net[d].iter().map(|f| &f.data).collect();
+        v.sort();
+        v.hash(&mut h);
+    }
+    sim.now_us.hash(&mut h);
+    sim.delivered_vital.hash(&mut h);
+    h.finish()
+}
+
+fn dfs<P: Proto>(
+    sim: &mut Sim<P>,
+    depth: u32,
+    max_depth: u32,
+    seen: &mut std::collections::HashSet<u64>,
+    states: &mut u64,
+    transitions: &mut u64,
+) -> Result<(), String> {
+    if !seen.insert(sim_key(sim)) {
+        return Ok(());
+    }
+    *states += 1;
+    if depth >= max_depth {
+        return Ok(());
+    }
+    let mut moves: Vec<Op> = Vec::new();
+    for dir in 0..2u8 {
+        let n = sim.net[dir as usize].len();
+        // distinct datagrams only (identical copies give identical successors)
+        let mut seen_d: Vec<&Vec<u8>> = Vec::new();
+        for k in 0..n {
+            let d = &sim.net[dir as usize][k].data;
+            if seen_d.contains(&d) {
+                continue;
+            }
+            seen_d.push(d);
+            let kk = exact_index(k, n);
+            moves.push(Op::Deliver { dir, k: kk });
+            moves.push(Op::Drop { dir, k: kk });
+            if n < 4 {
+                moves.push(Op::Dup { dir, k: kk });
+            }
+        }
+    }
+    // tick at the earliest deadline
+    let deadline = sim.earliest_deadline();
+    for m in moves {
+        let mut child = sim.snapshot();
+        child
+            .step(&m)
+            .map_err(|f| format!("schedule exploration depth {}: {:?}: [{}] {}", depth, m, f.oracle, f.msg))?;
+        *transitions += 1;
+        dfs(&mut child, depth + 1, max_depth, seen, states, transitions)?;
+    }
+    if let Some(t) = deadline {
+        let mut child = sim.snapshot();
+        if t > child.now_us {
+            child.now_us = t;
+        }
+        for side in 0..2u8 {
+            child
+                .step(&Op::Tick { side })
+                .map_err(|f| format!("schedule exploration depth {}: tick: [{}] {}", depth, f.oracle, f.msg))?;
+        }
+        *transitions += 1;
+        dfs(&mut child, depth + 1, max_depth, seen, states, transitions)?;
+    }
+    Ok(())
+}
+
+/// inverse of `pick`: a 16-bit index that `pick(_, n)` maps to k
+fn exact_index(k: usize, n: usize) -> u16 {
+    let mut v = ((k << 16) + n - 1) / n;
+    while crate::pick(v as u16, n) < k {
+        v += 1;
+    }
+    v as u16
+}
+
+pub fn run(ctx: &Ctx) {
+    ctx.set_rule(
+        "histories = handshake prelude (85%) + 0..N generated ops {send vital/non-vital with boundary-biased length, flush, tick, \
+         clock advance, deliver/drop/duplicate the k-th in-flight datagram, deliver-all, burst of n<=300 acked vital chunks, \
+         disconnect/reset/connless}; non-trivial = at least one vital chunk was delivered AND a drop/dup/out-of-order delivery hit a \
+         datagram carrying a vital chunk; distinct by hash of the op list. Thorough adds a complete DFS over deliver/drop/dup/tick \
+         schedules of a 3-chunk scenario.",
+    );
+    ctx.assume("application drains every event iterator; < 500 unacknowledged vital chunks; in-flight datagrams expire once either side advanced 400 sequence numbers (500+400 < 1024)");
+    ctx.assume("0.6-without-token variant = the harness rewrites the connector's Connect datagram to the tokenless 4-byte form (a vanilla client), as the repository's own test does");
+    let max_ops = ctx.n(300, 1500) as usize;
+    for v in VARIANTS {
+        let max_len = max_len_for(v, ctx);
+        ctx.prop(
+            &format!("history/{}", v.name()),
+            ctx.n(4000, 60_000),
+            || history_strategy(max_len, max_ops, true),
+            |ops: &Vec<Op>| check(v, ops, max_len),
+        );
+    }
+    if !ctx.quick() || std::env::var_os("VERIF_C01_DFS").is_some() {
+        // bounded exhaustive schedule enumeration
+        for (vi, v) in VARIANTS.iter().enumerate() {
+            for split in 1..=3usize {
+                let section = format!("schedules/{}/split{}", v.name(), split);
+                let v = *v;
+                let counts = std::sync::Mutex::new((0u64, 0u64));
+                ctx.exhaustive(
+                    &section,
+                    1,
+                    |_| {
+                        let mut st = 0;
+                        let mut tr = 0;
+                        let depth = 7;
+                        let r = match v {
+                            Variant::V6Token => explore::<P6>(false, 3, split, depth, &mut st, &mut tr),
+                            Variant::V6NoToken => explore::<P6>(true, 3, split, depth, &mut st, &mut tr),
+                            Variant::V7 => explore::<P7>(false, 3, split, depth, &mut st, &mut tr),
+                        };
+                        *counts.lock().unwrap() = (st, tr);
+                        r.map(|()| true)
+                    },
+                    |_| json!({"scenario": "3 vital chunks", "split": split, "variant": v.name()}),
+                );
+                let (st, tr) = *counts.lock().unwrap();
+                ctx.extra(&format!("dfs_{}_{}", vi, split), json!({"states": st, "transitions": tr}));
+            }
+        }
+    }
 }
